@@ -169,6 +169,62 @@ def _dir_on_other_dev(c):
     return bool(hit)
 
 
+# ---- S-xdev: every kind of object, including a sub-Manifest file, may sit elsewhere --------
+
+XIGN = (None, 'f', 'd', 'd/g', 'd/Manifest')
+XOBJ = ('f', 'd', 'd/g', 'd/Manifest', 'd/e', 'd/e/h')
+
+
+def s_xdev(v):
+    c = Ctx()
+    fs = c.fs = ModelFS(written_sizes=[5, 6], walk_fuel=40)
+    devs = {o: (2 if v.bool('x_' + o.replace('/', '_')) else 1) for o in XOBJ}
+    ig = XIGN[v.choice('ignore', len(XIGN))]
+    c.ignores = [ig] if ig is not None else []
+    c.ofs = v.bool('one_file_system')
+    c.walker = WALKERS[v.choice('walker', 3)]
+    want_sub, want_g = v.bool('sub_manifest'), v.bool('g_in_sub')
+    sub = want_sub and ig not in ('d', 'd/Manifest')
+    g_in_sub = sub and want_g
+    fs.add_file('f', size=1, digest='f', dev=devs['f'])
+    fs.add_dir('d', dev=devs['d'])
+    fs.add_file('d/g', size=2, digest='g', dev=devs['d/g'])
+    fs.add_dir('d/e', dev=devs['d/e'])
+    fs.add_file('d/e/h', size=3, digest='h', dev=devs['d/e/h'])
+    top = [mk('IGNORE', i) for i in c.ignores]
+
+    def ignored(rel):
+        return any(tree.cw_prefix(rel, i) for i in c.ignores)
+    subents = []
+    for rel, size, tok in (('f', 1, 'f'), ('d/g', 2, 'g'), ('d/e/h', 3, 'h')):
+        if ignored(rel):
+            continue
+        if g_in_sub and rel.startswith('d/'):
+            subents.append(mk('DATA', rel[2:], size, MD5=digest_for('MD5', tok)))
+        else:
+            top.append(mk('DATA', rel, size, MD5=digest_for('MD5', tok)))
+    c.sub = sub
+    if sub:
+        mn = fs.add_manifest('d/Manifest', subents, size=9, digest='S')
+        mn.dev = devs['d/Manifest']
+        top.append(mk('MANIFEST', 'd/Manifest', 9, MD5=digest_for('MD5', 'S')))
+    fs.add_manifest('Manifest', top)
+    objs = [o for o in XOBJ if (o != 'd/Manifest' or sub)]
+    c.visible = [o for o in objs if not ignored(o)]
+    c.foreign = [o for o in c.visible if devs[o] != 1]
+    c.foreign_dirs = [o for o in c.foreign if o in ('d', 'd/e')]
+    return c
+
+
+def judge_xdev(c, out):
+    if c.walker == 'load_unregistered_manifests':
+        # this walker looks at directories only (it neither verifies nor records files)
+        exp = 'xdev' if (c.ofs and c.foreign_dirs) else 'true'
+    else:
+        exp = 'xdev' if (c.ofs and c.foreign) else 'true'
+    return out == exp, bool(c.foreign) and c.ofs
+
+
 def conditions(tier):
     cs = []
     full = tier != 'quick'
@@ -186,6 +242,19 @@ def conditions(tier):
                    'IGNORE on a link or above it or none (6 choices), directory c on another '
                    'device or not, empty mount point a/mnt on another device or not, '
                    'one-file-system on/off'))
+    for fx in partitions([('walker', range(3)), ('ignore', range(len(XIGN))),
+                          ('sub_manifest', (False, True))]):
+        nm = f'xdev_w{fx["walker"]}_i{fx["ignore"]}_s{int(fx["sub_manifest"])}'
+        cs.append(make_cond(
+            nm, s_xdev, run_walk, judge_xdev, fx, timeout=300, group='M-xdev', real=False,
+            twin=(fx['ignore'] == 0),
+            descr=f'{WALKERS[fx["walker"]]} on a tree f, d/{{g,Manifest,e/h}} where every '
+                  'object - files, directories and the sub-Manifest file itself (bind mount '
+                  'or link of a file) - has its own symbolic device: in one-file-system mode '
+                  'a non-ignored object elsewhere gives the cross-device error, otherwise '
+                  'the walk succeeds',
+            bounds='6 objects x 2 devices, IGNORE on none/f/d/d/g/d/Manifest, entries of d '
+                   'in the top-level or in the sub-Manifest, one-file-system on/off'))
     return cs
 
 
